@@ -138,7 +138,7 @@ fn replay(path: &str) -> i32 {
     let r = &v["replay"];
     println!("replaying {}: {}", path, v["what"]);
     match r["engine"].as_str() {
-        Some("e1") => checks_conc::replay_e1(r),
+        Some("e1") | Some("e1-bounded") => checks_conc::replay_e1(r),
         Some("hseq") => {
             let prop = r["property"].as_str().unwrap_or("");
             let chk = match prop {
